@@ -724,12 +724,9 @@ func (s *IndexedState) expire(ctx *Context, id string, fact map[string]interface
 		if s.remHook != nil {
 			if rule, _ := ExtractRule(ctx, fact, false); rule != nil {
 				if _, scheduled := rule["schedule"]; scheduled {
-					wasPrivileged := ctx.isPrivileged("hook")
 					s.withPrivilege(ctx)
 					err := s.remHook(ctx, s, id)
-					if !wasPrivileged {
-						s.withoutPrivilege(ctx)
-					}
+					s.withoutPrivilege(ctx)
 					if err != nil {
 						Log(ERROR, ctx, "IndexedState.expire", "name", s.Name,
 							"when", "remHook", "error", err)
